@@ -12,7 +12,7 @@ RULE = ("all well-formed sequences on the tick lattice (pairs over the full latt
         "capacities, build); non-trivial = a note crosses a boundary or an event sits on one")
 SCALE = ('16-120 notes under 8 capacity lists; four-channel chorales of 45/100/250 beats (eight note messages on every boundary tick) with 0..8 leading events shifting every message index, 5 capacity lists; one call returning 1320 pieces')
 ASSUMPTIONS = ["source sequences are well-formed with integer ticks (property precondition)"]
-REQUIRED_FLAGS = ["capacities_not_a_list", "after_history", "note_crosses_two_boundaries", "event_on_boundary", "event_on_final_tick", "same_pitch_two_channels",
+REQUIRED_FLAGS = ["capacities_not_a_list", "canonical_stored_order", "after_history", "note_crosses_two_boundaries", "event_on_boundary", "event_on_final_tick", "same_pitch_two_channels",
                   "remainder_piece", "capacities_longer_than_sequence", "trailing_rest", "leading_rest"]
 
 PITCH_VARIANTS = [60, 21, 107, 64]
@@ -78,8 +78,24 @@ def units(ctx):
     yield ("slices",)
 
 
+def _with_canonical(gen):
+    """cases with notes on two channels built through the absolute representation are repeated with the messages stored
+    in the library's canonical order (tick, channel, kind, pitch: at one tick a lower channel's note-on precedes a higher
+    channel's note-off)"""
+    for c in gen:
+        yield c
+        ns = c.get("notes", [])
+        if c.get("build") == "abs" and len({n[3] for n in ns}) > 1 and (len(ns) <= 60 or len(c.get("events", [])) % 3 == 0):
+            ticks = {}
+            for n in ns:
+                ticks.setdefault(n[0], set()).add(n[3])
+                ticks.setdefault(n[0] + n[1], set()).add(n[3])
+            if any(len(v) > 1 for v in ticks.values()):      # the order only matters where two channels meet on a tick
+                yield dict(c, build="canon")
+
+
 def gen_cases(unit, ctx):
-    return lib.with_carriers(_gen_cases(unit, ctx), 6, "capcarrier")
+    return lib.with_carriers(_with_canonical(_gen_cases(unit, ctx)), 6, "capcarrier")
 
 
 def _mk(notes):
@@ -218,7 +234,11 @@ def check_case(case, ctx):
         src, notes, events, dur = live
     else:
         notes, events, dur, build = case["notes"], case["events"], case["dur"], case["build"]
-        src = (lib.seq_abs if build == "abs" else lib.seq_rel)(notes, events, dur)
+        if build == "canon":
+            src = lib.seq_abs(notes, events, dur, order="canonical")
+            R.flags.append("canonical_stored_order")
+        else:
+            src = (lib.seq_abs if build == "abs" else lib.seq_rel)(notes, events, dur)
     D = max([n[0] + n[1] for n in notes] + [e[1] for e in events] + [dur or 0])
     before = lib.obs(src)
     try:
